@@ -30,6 +30,7 @@ import Driver.AchainChk
 import Vata.Proofs.LtsSim
 import Vata.Properties.C01
 import Vata.TrimCoded
+import Vata.InclDownStack
 import Vata.UnionIsectMaps
 /-!
 # vdriver – the model side of the correspondence check
@@ -124,8 +125,19 @@ def checkIncl (args res : List String) : Except String (Findings × String) := d
         if bchar b != c then f := f ++ [s!"mismatch {name}-model verdict {bchar b} implementation {c}"]
         if b != exp then throw s!"internal: certifying {name} model contradicts the reference"
       | none => f := f ++ [s!"mismatch {name}-model returned none (fuel / certificate)"]
+  -- the non-recursive algorithm's CALL EMULATOR as coded (explicit stack of frames, one program counter per C++ label:
+  -- `Vata/InclDownStack.lean`; `C01_stack_machine_refines_recursion`, `C01_nonrec_stack_exact`): the machine's verdict on the
+  -- prepared operands must be the implementation's; `none` = step budget exhausted (only an existential bound is proved)
+  let mut stk := "-"
+  if A.states.length + B.states.length ≤ 6 && (dedupRules A.rules).length + (dedupRules B.rules).length ≤ 12 && chars[2]! != 'T' then
+    match inclDownNonrecStack (sanitize A B).1 (sanitize A B).2.1 60000 with
+    | some (b, _) =>
+      stk := "1"
+      if bchar b != chars[2]! then f := f ++ [s!"mismatch down-nonrec stack-machine verdict {bchar b} implementation {chars[2]!}"]
+      if b != exp then throw "internal: stack machine contradicts the reference"
+    | none => stk := "0"
   let ne ← emptyE A
-  let tag := s!"incl={bchar exp} emptyA={bchar ne} overrun={over}"
+  let tag := s!"incl={bchar exp} emptyA={bchar ne} overrun={over} stackmachine={stk}"
   pure (f, tag)
 
 def checkInclAll (args res : List String) : Except String (Findings × String) := do
